@@ -4,6 +4,7 @@ import (
 	"context"
 	"fmt"
 	"strings"
+	"sync"
 
 	"github.com/cloudwego/eino/compose"
 	"github.com/cloudwego/eino/schema"
@@ -198,6 +199,75 @@ func buildDag() (*Object, error) {
 		call: func(ctx context.Context, r *Rec, paradigm string) (string, error) {
 			opts := append(commonOpts(r), compose.WithLambdaOption(TagOpt{Tag: r.Caller + "@b"}).DesignateNode("b"))
 			return callVal(ctx, run, paradigm, valInput(r), opts)
+		}}, nil
+}
+
+// ---------------------------------------------------------------------------------------------------
+// Interrupt + resume on a shared runnable: START -> a -> b -> END with state, interrupt after a, ONE checkpoint store
+// for all callers (each caller uses its own checkpoint id). A call of this object is two runs: the first ends with
+// the interrupt, the second resumes it in the same paradigm. The checkpoint written at the interrupt is converted
+// according to the paradigm of the run that wrote it: the callers' paradigms differ.
+
+func init() { _ = compose.RegisterSerializableType[St]("verif_c09_st") }
+
+type cpStore struct {
+	mu sync.Mutex // never held across a scheduling point
+	m  map[string][]byte
+}
+
+func (s *cpStore) Get(ctx context.Context, id string) ([]byte, bool, error) {
+	s.mu.Lock()
+	defer s.mu.Unlock()
+	b, ok := s.m[id]
+	return append([]byte{}, b...), ok, nil
+}
+
+func (s *cpStore) Set(ctx context.Context, id string, b []byte) error {
+	s.mu.Lock()
+	defer s.mu.Unlock()
+	s.m[id] = append([]byte{}, b...)
+	return nil
+}
+
+func buildInterrupt() (*Object, error) {
+	store := &cpStore{m: map[string][]byte{}}
+	g := compose.NewGraph[Val, Val](compose.WithGenLocalState(func(ctx context.Context) *St { return &St{} }))
+	errs := []error{
+		g.AddLambdaNode("a", lam("a", chain("a")), compose.WithNodeName("a"),
+			compose.WithStatePostHandler(func(ctx context.Context, out Val, st *St) (Val, error) {
+				st.Log = append(st.Log, "post:a:"+sv(out, "v"))
+				return out, nil
+			})),
+		g.AddLambdaNode("b", lam("b", func(ctx context.Context, in Val) (Val, error) {
+			var log []string
+			err := compose.ProcessState(ctx, func(_ context.Context, st *St) error {
+				log = append([]string{}, st.Log...)
+				return nil
+			})
+			return Val{"v": sv(in, "v") + ">b", "state": strings.Join(log, ",")}, err
+		}), compose.WithNodeName("b")),
+		g.AddEdge(compose.START, "a"), g.AddEdge("a", "b"), g.AddEdge("b", compose.END),
+	}
+	for _, e := range errs {
+		if e != nil {
+			return nil, e
+		}
+	}
+	run, err := g.Compile(context.Background(), compose.WithGraphName("INT"), compose.WithCheckPointStore(store),
+		compose.WithInterruptAfterNodes([]string{"a"}))
+	if err != nil {
+		return nil, err
+	}
+	return &Object{Kind: "interrupt-resume", Paradigms: valParadigms,
+		call: func(ctx context.Context, r *Rec, paradigm string) (string, error) {
+			opts := append(commonOpts(r), compose.WithCheckPointID("cp-"+r.Caller))
+			res, err := callVal(ctx, run, paradigm, valInput(r), opts)
+			info, ok := compose.ExtractInterruptInfo(err)
+			if !ok {
+				return "", fmt.Errorf("expected the interrupt after a, got result %q and error %v", res, err)
+			}
+			res, err = callVal(ctx, run, paradigm, valInput(r), opts)
+			return fmt.Sprintf("interrupt{after=%v} then %s", info.AfterNodes, res), err
 		}}, nil
 }
 
